@@ -1,4 +1,5 @@
 import FteikVerif.Proofs.GenEquivSolver3
+import FteikVerif.Generated.KSolver3
 import FteikVerif.Proofs.GenEquivLoops2
 import FteikVerif.Proofs.Sweep
 set_option linter.unusedSimpArgs false
